@@ -94,7 +94,8 @@ class Exits:
         self.cap_env = cap_env or {}
         self.effects = effects
         self.sinks = re.compile(sinks) if sinks else None
-        self.cfg = prog.cfg(body)
+        from .cfg import CFG
+        self.cfg = CFG(body, diverging_as_exits=True)
         self.D = Describer(body)
         self.du = DefUse(body)
         self._cd = {}
